@@ -1,6 +1,6 @@
 (* C12 — stacking writes through.  Property theorems only. *)
 From Coq Require Import ZArith QArith Qround List Bool.
-From RV Require Import Base.PyNum Frame.Frame Map.Stacker Map.StackerSpec Proofs.StackerProofs.
+From RV Require Import Base.PyNum Frame.Frame Map.Stacker Map.StackerSpec Proofs.StackerProofs Proofs.StackerHistory.
 Import ListNotations.
 Open Scope Q_scope.
 
@@ -22,6 +22,35 @@ Theorem C12_coherence_preserved : forall ls rows op,
   let st' := stack_apply op (mkStacker (map (fun u => length (u_rows u)) ls) rows) in
   coherentP (unstack ls (st_rows st')) (st_rows st').
 Proof. exact coherence_preserved. Qed.
+
+(* every history: ONE stacker taken from any well-formed lists, ANY sequence of edits through it (each edit writes
+   back into the lists): the lists end up exactly as the same edits applied to each list separately ... *)
+Theorem C12_history_is_per_list : forall ls ops,
+  forallb wf_ulist ls = true ->
+  fst (run_stack ls (st_rows (stack_init ls)) ops) = per_list_all ops ls.
+Proof. exact stack_history. Qed.
+
+(* ... the stacker's copy agrees with the lists at every point of the history ... *)
+Theorem C12_history_coherent : forall ls ops,
+  forallb wf_ulist ls = true ->
+  coherentP (fst (run_stack ls (st_rows (stack_init ls)) ops)) (snd (run_stack ls (st_rows (stack_init ls)) ops)).
+Proof. exact stack_history_coherent. Qed.
+
+(* ... and no history changes the columns or the length of any list *)
+Theorem C12_history_shape_kept : forall ops ls,
+  map u_cols (per_list_all ops ls) = map u_cols ls /\
+  map (fun u => length (u_rows u)) (per_list_all ops ls) = map (fun u => length (u_rows u)) ls.
+Proof. exact per_list_all_shape. Qed.
+
+(* outside the statement (one stack, edits through it): a SECOND stacker taken before the first one's edit writes its
+   stale copy back - the property text scopes the guarantee to edits through a coherent stack *)
+Example C12_stale_second_stacker :
+  let ls := [mkUlist [0]%Z [[CNum 10]]] in
+  let s2 := st_rows (stack_init ls) in
+  let ls1 := fst (run_stack ls (st_rows (stack_init ls)) [SAssign 0 AMul (OScalar 2)]) in
+  fst (run_stack ls1 s2 [SAssign 0 AAdd (OScalar 1)]) = [mkUlist [0]%Z [[CNum 11]]]
+  /\ per_list_all [SAssign 0 AMul (OScalar 2); SAssign 0 AAdd (OScalar 1)] ls = [mkUlist [0]%Z [[CNum 21]]].
+Proof. exact second_stacker_is_stale. Qed.
 
 (* nothing else changes: list lengths and columns are kept ... *)
 Theorem C12_shape_kept : forall op ls,
